@@ -3,6 +3,7 @@ package main
 // Engine: loading /repo, shared registries, per-function verification driver.
 
 import (
+	"go/ast"
 	"bufio"
 	"fmt"
 	"go/token"
@@ -34,6 +35,10 @@ type Engine struct {
 	modsCache map[*ssa.Function]modsEntry
 	vrCache   map[string][]types.Type
 	hooks     Hooks
+	// frozen package globals: component name -> addresses, and the globals themselves
+	frozenAddrs map[string][]Term
+	frozenGlobs map[*ssa.Global]bool
+	frozenTags  []string // properties under which the directive applies (empty: all)
 }
 
 // Hooks let property-specific analyses observe the translation.
@@ -102,6 +107,60 @@ func loadEngine(repo string) (*Engine, error) {
 	packages.Visit(pkgs, nil, func(p *packages.Package) { all = append(all, p) })
 	sort.Slice(all, func(i, j int) bool { return all[i].PkgPath < all[j].PkgPath })
 	e.contracts = loadContracts(all, fset)
+	e.frozenAddrs = map[string][]Term{}
+	e.frozenGlobs = map[*ssa.Global]bool{}
+	for _, fg := range e.contracts.frozen {
+		sp := e.spkgs[fg.pkg.PkgPath]
+		if sp == nil {
+			continue
+		}
+		g, ok := sp.Members[fg.name].(*ssa.Global)
+		if !ok {
+			e.contracts.errors = append(e.contracts.errors, "frozen: no package variable "+fg.name+" in "+fg.pkg.PkgPath)
+			continue
+		}
+		cn := "cell:" + typeKey(g.Type().Underlying().(*types.Pointer).Elem())
+		e.frozenAddrs[cn] = append(e.frozenAddrs[cn], e.globalAddr(g))
+		e.frozenGlobs[g] = true
+		e.frozenTags = append(e.frozenTags, fg.tags...)
+		if ast.IsExported(fg.name) {
+			e.contracts.errors = append(e.contracts.errors, "frozen: "+fg.name+" is exported (other packages could assign it)")
+		}
+		// its address must never escape: only direct loads and stores
+		var walk func(f *ssa.Function)
+		walk = func(f *ssa.Function) {
+			for _, b := range f.Blocks {
+				for _, in := range b.Instrs {
+					for _, op := range in.Operands(nil) {
+						if *op != ssa.Value(g) {
+							continue
+						}
+						switch x := in.(type) {
+						case *ssa.Store:
+							if x.Val != ssa.Value(g) {
+								continue
+							}
+						case *ssa.UnOp:
+							if x.Op == token.MUL {
+								continue
+							}
+						case *ssa.DebugRef:
+							continue
+						}
+						e.contracts.errors = append(e.contracts.errors, "frozen: address of "+fg.name+" escapes in "+f.String())
+					}
+				}
+			}
+			for _, af := range f.AnonFuncs {
+				walk(af)
+			}
+		}
+		for _, m := range sp.Members {
+			if f, ok := m.(*ssa.Function); ok {
+				walk(f)
+			}
+		}
+	}
 	return e, nil
 }
 
@@ -442,7 +501,7 @@ func (e *Engine) namedType(pkgName, name string) types.Type {
 func (e *Engine) bareTr() *Tr {
 	tr := &Tr{eng: e, comps: map[string]*Component{}, oblCount: map[string]int{}, panicMode: "ignore",
 		initHeap: map[string]*HeapV{}, usedStubs: map[string]bool{}, inlined: map[string]bool{}, havocked: map[string]bool{},
-		declared: map[string]bool{}, unfolded: map[string]bool{}, usedContracts: map[string]bool{}, usedAssumed: map[string]bool{}, atDone: map[string]bool{}}
+		declared: map[string]bool{}, unfolded: map[string]bool{}, usedContracts: map[string]bool{}, usedAssumed: map[string]bool{}, atDone: map[string]bool{}, specDefs: map[string]string{}}
 	tr.alloc0 = tr.freshConst("alloc0", "Int")
 	tr.assume(app(">=", tr.alloc0, "0"), "allocation counter non-negative")
 	a := &Act{tr: tr, vals: map[ssa.Value]Term{}, tups: map[ssa.Value][]Term{}, lvs: map[ssa.Value]*LV{},
@@ -489,5 +548,49 @@ func (e *Engine) valueRecvPtrTypes(name string) []types.Type {
 		}
 	}
 	e.vrCache[name] = out
+	return out
+}
+
+// storesFrozen lists the frozen globals fn (or a closure of it) stores to.
+// frozenActive: the frozen directive applies to the property being checked.
+func (e *Engine) frozenActive(prop string) bool {
+	if len(e.frozenGlobs) == 0 {
+		return false
+	}
+	if len(e.frozenTags) == 0 {
+		return true
+	}
+	for _, t := range e.frozenTags {
+		if t == prop {
+			return true
+		}
+	}
+	return false
+}
+
+func (e *Engine) storesFrozen(fn *ssa.Function) []*ssa.Global {
+	if len(e.frozenGlobs) == 0 {
+		return nil
+	}
+	seen := map[*ssa.Global]bool{}
+	var out []*ssa.Global
+	var walk func(f *ssa.Function)
+	walk = func(f *ssa.Function) {
+		for _, b := range f.Blocks {
+			for _, in := range b.Instrs {
+				if s, ok := in.(*ssa.Store); ok {
+					if g, ok := s.Addr.(*ssa.Global); ok && e.frozenGlobs[g] && !seen[g] {
+						seen[g] = true
+						out = append(out, g)
+					}
+				}
+			}
+		}
+		for _, af := range f.AnonFuncs {
+			walk(af)
+		}
+	}
+	walk(fn)
+	sort.Slice(out, func(i, j int) bool { return out[i].Name() < out[j].Name() })
 	return out
 }
